@@ -1,14 +1,14 @@
 SPECIFICATION Spec
 CONSTANTS
-  MaxH = 2
-  MaxRestarts = 1
-  FullNode = FALSE
+  MaxH = 1
+  MaxRestarts = 0
+  FullNode = TRUE
   Cap = 2
-  Weaken = "loadNoHeight"
+  Weaken = "saveErrUndecides"
   GapFix = FALSE
   CertRounds = {1}
   Direct = FALSE
   MidCrash = FALSE
   Timeouts = FALSE
-  MaxWriteFaults = 0
-INVARIANT RestartResumes
+  MaxWriteFaults = 1
+PROPERTY HighestMonotoneCert
